@@ -32,6 +32,18 @@ PROGS = {
     "c": ("qc.c", 'int x;\n#line 30 "c.h"\nT * y;'),
     "e": ("qe.c", 'typedef int T;\n#line 7\nT x;'),
     "f": ("qf.c", 'int T,\n#line 7\ny = T;'),
+    # '#pragma <text>' lines (a PPPRAGMA token followed by a pending
+    # PPPRAGMASTR) at file scope and inside a function body, with different
+    # texts, lines and columns; P3 also has a bare '#pragma'
+    "P1": ("p1.c", '#pragma alpha one\nint a;\nvoid f(void){\n#pragma alpha two\n a; }'),
+    "P2": ("p2.c", 'int b;\n  #pragma beta one\nvoid g(void){ b;\n#pragma beta two\n}'),
+    "P3": ("p3.c", '#pragma\n#pragma gamma three\nint c;'),
+    # shallow | deep: X is short; Y nests DEEP_K parentheses, about 8 Python
+    # frames each (measured: the deepest nesting that parses is 372 at a
+    # recursion limit of 3000 and 1247 at 10000), i.e. clearly more frames
+    # than the limit every execution starts with and clearly fewer than 10000
+    "X": ("px.c", 'int s = (1 + 2) * 3;'),
+    "Y": ("py.c", "int v = " + "(" * 640 + "1" + ")" * 640 + ";"),
     # control programs (no #line: the planted leak is in the initial file name)
     "LA": ("la.c", "typedef int T; T x;"),
     "LB": ("lb.c", "int T; int y = T * 2;"),
@@ -69,6 +81,11 @@ def _canon_raw(raw):
 class Scenario:
     """tasks: list of (kind, key, granularity)
        kind 'parse'   key in PROGS,   granularity 'token' | 'call'
+                      | 'split'  (token points plus one point between the
+                                  construction of the CParser and parse())
+                      | 'sparse' (long input: the first 6 token pulls and then
+                                  every 64th pull are points)
+       kind 'ctor'    only constructs a CParser (points before and after)
        kind 'gen'     key in GEN_SRC, granularity 'visit' | 'call'
        kind 'visitor' key in VIS_SRC, granularity 'call'
        kind 'leaky-parse': harness-made interference (positive control)"""
@@ -78,7 +95,7 @@ class Scenario:
         self.tasks = [tuple(t.split(":")) for t in tasks]
         self.ntasks = len(self.tasks)
         self.kinds = [{"parse": "parser", "gen": "generator", "visitor": "visitor",
-                       "leaky-parse": "control"}[t[0]] for t in self.tasks]
+                       "leaky-parse": "control", "ctor": "constructor"}[t[0]] for t in self.tasks]
         # every task gets its own input object, built when its job is first
         # made (so that running one task alone executes nothing else)
         self.asts = [None] * self.ntasks
@@ -112,6 +129,30 @@ class Scenario:
 
             def job(point):
                 return _canon_raw(_raw_parse(lambda: CParser(lexer=sched.token_lexer(point)), text, fn))
+
+        elif kind == "parse" and gran == "split":
+            fn, text = PROGS[key]
+
+            def job(point):
+                p = CParser(lexer=sched.token_lexer(point))
+                point("constructed")
+                return _canon_raw(_raw_parse(lambda: p, text, fn))
+
+        elif kind == "parse" and gran == "sparse":
+            fn, text = PROGS[key]
+
+            def job(point):
+                return _canon_raw(_raw_parse(lambda: CParser(lexer=sched.token_lexer(point, 6, 64)), text, fn))
+
+        elif kind == "ctor":
+            def job(point):
+                point("before-constructor")
+                try:
+                    CParser(lexer=sched.token_lexer(point))
+                except Exception as e:  # noqa
+                    return ("exc", type(e).__name__, str(e))
+                point("after-constructor")
+                return ("text", "constructed")
 
         elif kind == "parse":
             fn, text = PROGS[key]
@@ -222,6 +263,14 @@ def plan(tier):
         (_ref("2 parsers A|D(fails) @token", "parse:A:token", "parse:D:token"), bt),
         (_ref("2 parsers E|F (same bare #line / # N) @token", "parse:E:token", "parse:F:token"), bt),
         (_ref("3 parsers A|B|C @token", "parse:A:token", "parse:B:token", "parse:C:token"), bt),
+        # pending-token state: a switch can fall between PPPRAGMA and PPPRAGMASTR
+        (_ref("2 parsers P1|P2 (pragmas with text) @token", "parse:P1:token", "parse:P2:token"), bt),
+        (_ref("3 parsers P1|P2|P3 (pragmas with text) @token", "parse:P1:token", "parse:P2:token", "parse:P3:token"), bt),
+        (_ref("2 parsers P1|C (only one has pragmas) @token", "parse:P1:token", "parse:C:token"), bt),
+        (_ref("parser P1 | construction of another CParser @token", "parse:P1:token", "ctor::token"), bt),
+        (_ref("2 parsers P1|P2, construction and parse() separated @token", "parse:P1:split", "parse:P2:split"), bt),
+        # process-wide interpreter state: shallow | deep
+        (_ref("2 parsers X(shallow)|Y(640 nested parentheses) @token (Y: first 6 pulls, then every 64th)", "parse:X:token", "parse:Y:sparse"), bt),
         (_ref("3 parsers E|F|G (same directives, G names a file) @token", "parse:E:token", "parse:F:token", "parse:G:token"), bt),
         (_ref("3 parsers D|C|A @token", "parse:D:token", "parse:C:token", "parse:A:token"), bt),
         (_ref("parser A | generator deep @token/visit", "parse:A:token", "gen:deep:visit"), bt),
